@@ -3,12 +3,18 @@
    expected sequence of results. *)
 From Mxj Require Export Model.Json Model.Reader.
 
-(* what the consumer of a ReadByte result looks at: the error first, the byte only if it is nil *)
-Inductive view := VByte (b : ascii) | VEof.
-Definition view_of (r : ascii * bool) : view := if snd r then VEof else VByte (fst r).
-
 (* a transparent adaptor over a reader that delivers X: the bytes of X in order, then io.EOF forever *)
-Definition transparent (X : str) (n : nat) : list view := firstn n (map VByte X ++ repeat VEof n).
+Definition transparent (X : str) (n : nat) : list rbres := firstn n (map RBByte X ++ repeat (RBErr RBEof) n).
+
+(* the schedule never has 100 (0, nil) reads in a row: byteReader / teeReader give up with io.ErrNoProgress
+   after 100 consecutive empty reads (as bufio.Reader does) *)
+Fixpoint zb_aux (lim cur : nat) (sc : list rev) : bool :=
+  match sc with
+  | [] => true
+  | Zero :: t => Nat.ltb (S cur) lim && zb_aux lim (S cur) t
+  | _ :: t => zb_aux lim 0 t
+  end.
+Definition zero_bounded (sc : list rev) : bool := zb_aux 100 0 sc.
 
 Definition is_blank (c : ascii) : bool :=
   let n := N_of_ascii c in ((n =? 32) || (n =? 9) || (n =? 10) || (n =? 13))%N.
@@ -25,13 +31,15 @@ Fixpoint stream (ds : list (str * str)) (tail : str) : str :=
 Definition decode_doc (M : xmachine) (d : str) : res value := fst (direct M (m_init M) d).
 
 Definition is_ok {A} (r : res A) : bool := match r with Ok _ => true | _ => false end.
+(* a Map and a nil error *)
+Definition is_okmap (r : res value) : bool := match r with Ok (VMap _) => true | _ => false end.
 
 (* Assumptions on the environment (encoding/xml + the parser), validated by the harness on every run:
    - an error from ReadByte ends the call with an error;
    - on blanks ++ document ++ anything the decoder returns what it returns on the document alone, having
      read exactly up to the end of the document (the root element's closing '>');
    - on blanks alone it returns io.EOF. *)
-Definition eof_is_error (M : xmachine) : Prop := forall st, is_ok (m_eof M st) = false.
+Definition eof_is_error (M : xmachine) : Prop := forall st, is_ok (m_eof M st) = false /\ is_ok (m_noprog M st) = false.
 Definition stops_at (M : xmachine) (d : str) : Prop :=
   forall w rest, blank w = true ->
     direct M (m_init M) (w ++ d ++ rest) = (decode_doc M d, length w + length d).
